@@ -705,6 +705,118 @@ func c39concurrent(c *Ctx, round int) {
 	}
 }
 
+// Stop racing with Unsubscribe of still-open subscriptions, with Post and with Subscribe: many
+// small rounds, every call of the implementation in its own goroutine under a watchdog. The
+// first call that does not return ends the share (the blocked goroutines are left behind; a
+// dispatcher whose locks are deadlocked cannot be cleaned up).
+func c39stopRace(c *Ctx, rounds int) {
+	type call struct {
+		name string
+		f    func()
+		done chan struct{}
+	}
+	for r := 0; r < rounds; r++ {
+		d := event.NewDispatcher()
+		nsubs := 1 + c.Rng.Intn(5)
+		var subs []*event.Subscription
+		for i := 0; i < nsubs; i++ {
+			var args []interface{}
+			for t := 0; t < 3; t++ {
+				if c.Rng.Intn(2) == 0 || (t == 2 && len(args) == 0) {
+					args = append(args, c39cmk(c39cev{T: t}))
+				}
+			}
+			h, err := d.Subscribe(args...)
+			if err != nil {
+				panic(err)
+			}
+			subs = append(subs, h)
+		}
+		// a few events in the buffers, nobody reads
+		for i := 0; i < c.Rng.Intn(4); i++ {
+			d.Post(c39cmk(c39cev{P: 9, Seq: i, T: c.Rng.Intn(3)}))
+		}
+		var calls []*call
+		add := func(name string, f func()) { calls = append(calls, &call{name: name, f: f, done: make(chan struct{})}) }
+		nStops := 1 + c.Rng.Intn(2)
+		for i := 0; i < nStops; i++ {
+			add("Stop", d.Stop)
+		}
+		for i, h := range subs {
+			h := h
+			add(fmt.Sprintf("Unsubscribe(sub %d)", i), h.Unsubscribe)
+			if c.Rng.Intn(3) == 0 {
+				add(fmt.Sprintf("Unsubscribe(sub %d) again", i), h.Unsubscribe)
+			}
+		}
+		for i := 0; i < c.Rng.Intn(4); i++ {
+			e := c39cev{P: 8, Seq: i, T: c.Rng.Intn(3)}
+			add("Post", func() { d.Post(c39cmk(e)) })
+		}
+		if c.Rng.Intn(2) == 0 {
+			add("Subscribe", func() {
+				if h, err := d.Subscribe(c39cmk(c39cev{T: 0})); err == nil && h != nil {
+					h.Unsubscribe()
+				}
+			})
+		}
+		c.Rng.Shuffle(len(calls), func(i, j int) { calls[i], calls[j] = calls[j], calls[i] })
+		start := make(chan struct{})
+		for _, cl := range calls {
+			cl := cl
+			go func() { <-start; cl.f(); close(cl.done) }()
+		}
+		close(start)
+		deadline := time.After(3 * time.Second)
+		var hung []string
+		for _, cl := range calls {
+			select {
+			case <-cl.done:
+			case <-deadline:
+				// the deadline channel fires once: collect every call that is still out
+				for _, o := range calls {
+					select {
+					case <-o.done:
+					default:
+						hung = append(hung, o.name)
+					}
+				}
+			}
+			if hung != nil {
+				break
+			}
+		}
+		c.Count("stoprace/rounds")
+		if hung != nil {
+			var all []string
+			for _, cl := range calls {
+				all = append(all, cl.name)
+			}
+			which := map[string]bool{}
+			for _, h := range hung {
+				which[strings.Fields(strings.Split(h, "(")[0])[0]] = true
+			}
+			var ws []string
+			for w := range which {
+				ws = append(ws, w)
+			}
+			sort.Strings(ws)
+			c.Fail("call-does-not-return:"+strings.Join(ws, "+"), fmt.Sprintf("stop-race round %d: dispatcher with %d open subscriptions; started concurrently: [%s]; after 3 s still blocked: [%s] (every later Post / Subscribe / Unsubscribe on this dispatcher hangs too)", r, nsubs, strings.Join(all, ", "), strings.Join(hung, ", ")))
+			c.Count("stoprace/hung")
+			return // abandon the share on the first hang
+		}
+		// all returned: the dispatcher is stopped, every subscription closed, Post fails
+		if err := d.Post(c39cmk(c39cev{T: 0})); err == nil {
+			c.Fail("conc:post-after-stop-succeeded", fmt.Sprintf("stop-race round %d", r))
+		}
+		for i, h := range subs {
+			if !h.Closed() {
+				c.Fail("stoprace:subscription-not-closed", fmt.Sprintf("stop-race round %d sub %d", r, i))
+			}
+		}
+	}
+}
+
 // the real capacity, on the implementation alone: 65536 fit, the next ones are dropped,
 // after reading k events k more fit.
 func c39fullReal(c *Ctx) {
@@ -763,6 +875,11 @@ func runC39(c *Ctx) {
 	for i := 0; i < rounds; i++ {
 		c39concurrent(c, i)
 	}
+	stopRounds := 1500
+	if c.Tier == "thorough" {
+		stopRounds = 20000
+	}
+	c39stopRace(c, stopRounds)
 	c39fullReal(c)
 }
 
